@@ -297,8 +297,18 @@ def metaLabels (id : Bytes) (i : Nat) (user fileName : Bytes) : Labels :=
   let l := if n.isEmpty then l else l.set (ofString "upload-file") n
   if user.isEmpty then l else l.set (ofString "by") user
 
-/-- `indexFile`: `none` when the file has no benchmark line -/
+/-- `bufio.Scanner` gives up (`ErrTooLong`) on a line of `maxTokenSize` = 64 KiB or more bytes before
+its line feed; `run` is the length of the line being scanned -/
+def tooLongGo : Nat → Bytes → Bool
+  | run, [] => run ≥ 65536
+  | run, c :: rest => if c == nl then run ≥ 65536 || tooLongGo 0 rest else tooLongGo (run + 1) rest
+
+def tooLong (data : Bytes) : Bool := tooLongGo 0 data
+
+/-- `indexFile`: `none` when the Reader fails on an over-long line (`br.Err()`), or when the file has
+no benchmark line -/
 def indexFile (u : Upload) (i : Nat) (user : Bytes) (f : FileIn) : Option Upload :=
+  if tooLong f.content then none else
   let lbls := metaLabels u.id i user f.name
   let results := (Reader.addLabels {} lbls).all f.content
   if results.isEmpty then none else some (results.foldl Upload.insertRecord u)
